@@ -17,19 +17,27 @@ DRIVER = "C18"
 
 RULE = ("collapse: every absolute path of 1..6 components over {'..','a',''} plus random paths of 1..8 components over "
         "{'..','.','','a','bc','...','a..','..a','x.y'}; lookup: generated trees of depth 1..4 (literal and '#N' segments, "
-        "multi-component names, argument parts, clean and deliberately clashing sibling names) x every walked address plus "
-        "mutated addresses; search: the same trees x locations (root, sub-tree addresses with and without trailing '/', leaf "
+        "multi-component names, argument parts, literal digits, clean and deliberately clashing sibling names) x every walked "
+        "address plus mutated addresses, and families of siblings of which a '#N' meets a literal digit (leading zero = alias, "
+        ">= N, canonical); search: the same trees x locations (root, sub-tree addresses with and without trailing '/', leaf "
         "addresses, missing) x needles (prefixes of child names, '', misses) x the three options, metadata of every length "
         "0..60 incl. NULL and \"\", duplicate names, names below a 'name/' entry.  Non-trivial = a path with '..', a tree "
         "with >= 2 levels or '#', a search returning >= 2 entries.")
 TRUSTED = ["harness/h_C18.cpp builds rtosc::Ports tables at run time (names, metadata blocks in exact-size heap buffers) and "
            "calls Ports::collapsePath, Ports::apropos, Ports::operator[], both rtosc::path_search overloads",
-           "tools/props/ports_common.py: tree generator and the Spec-side reading of names (expansion of '#N')"]
+           "tools/props/ports_common.py: tree generator and the Spec-side reading of names (expansion of '#N', spelling of "
+           "an address by a name, structural descent)"]
 ASSUMPTIONS = ["collapse: the path is absolute (starts with '/'); components may be empty",
-               "lookup: demanded when names_ok holds (the hypothesis of C18_lookup: names of the documented shape - literal "
-               "text may hold digits, sub-tree names of one or more components 'text/' / 'text#N/' - and no two sibling "
-               "names clash), or when names follow the grammar literal / '#N' (1 <= N) without literal digits, leaf names "
-               "carry at most one '#' and no concrete sibling name is a prefix of another",
+               "lookup: demanded for every walked (port, address) whose tables - from the root to the port - hold names of "
+               "the documented form (literal text, digits included, and '#N' with 1 <= N; sub-tree names end in '/') of which "
+               "no concrete name is a prefix of a sibling's concrete name (the proviso of the text, nothing more). Failures "
+               "where two siblings of which a '#N' meets a literal digit both spell the address are the known finding "
+               "lookup-leading-zero-alias (= the complement of the side condition of C18_lookup_partial)",
+               "search: every reply is checked for its shape, the origin of each (name, metadata) pair, the needle, the "
+               "order the option asks for, and the OSC encoding of the reply message; the exact set of children is demanded "
+               "for the root and for every location that names a sub-tree port by structural descent (tables on the way as "
+               "for lookup). What a search at a leaf address, at an address naming nothing, or without the trailing '/' "
+               "returns, the content of the two query strings, and operator[] are compared with the model only",
                "search: types/args buffers large enough for the addressed table (documented precondition of path_search); "
                "metadata blocks in the rMap/rProp/rDoc layout, NULL or \"\"; port names non-empty"]
 
@@ -145,6 +153,37 @@ def gen(rng, tier, dist):
         for opt in (0, 1, 2):
             out.append("search %s %s %s %d 16384 %d" % (pc.enc_tree(tree), hx(loc), hx(needle), opt, 1 if rng.random() < 0.2 else 0))
             bump(dist, "search-wide-table-opt-%d" % opt)
+    # ---- siblings of which a '#N' meets a literal digit: the index text of the literal sibling has
+    # a leading zero (the two names alias: finding class lookup-leading-zero-alias), is >= N (no
+    # alias: the lookup is demanded and must hold), or is canonical (a concrete prefix: outside the text)
+    for k in range(40 if tier == "quick" else 1200):
+        stem = rng.choice([b"a", b"v", b"os"])
+        n = rng.choice([2, 4, 11])
+        digs = rng.choice([b"01", b"00", b"003", b"9", str(n).encode(), str(n + 7).encode(), b"1", b"010"])
+        if rng.random() < 0.5:
+            tail = rng.choice([b"b", b"x", b"b/c"])
+            ps = [pc.mk_port([('L', stem), ('E', n), ('L', tail)], rng.choice([b"", b":i"]), pc.gen_meta(rng), None),
+                  pc.mk_port([('L', stem + digs + tail)], b"", pc.gen_meta(rng), None)]
+        else:
+            deep = [pc.mk_port([('L', b"w")], b"", pc.gen_meta(rng), None), pc.mk_port([('L', b"u")], b"", None, None)]
+            ps = [pc.mk_port([('L', stem), ('E', n), ('L', b"/")], b"", None,
+                             [pc.mk_port([('L', b"x")], b"", pc.gen_meta(rng), None)]),
+                  pc.mk_port([('L', stem + digs + b"/")], b"", pc.gen_meta(rng),
+                             [pc.mk_port([('L', b"y")], b":f", pc.gen_meta(rng), None),
+                              pc.mk_port([('L', b"c/")], b"", None, deep)])]
+        if rng.random() < 0.3:
+            ps.reverse()
+        if rng.random() < 0.5:
+            ps.insert(rng.randint(0, 2), pc.mk_port([('L', b"zz")], b"", None, None))
+        et = pc.enc_tree(ps)
+        walked = [a for _, a, _, _ in pc.text_walk(ps)]
+        out.append("lookup %s %s %s" % (et, ";".join(hx(a) for a in walked + [b"/" + stem + b"1", b"/zz"]), hx(stem)))
+        bump(dist, "digit-facing-lookup-addresses", len(walked) + 2)
+        for _, a, _, _ in pc.subtrees(ps):
+            for opt in (0, 1, 2):
+                out.append("search %s %s %s %d 4096 %d" % (et, hx(a), hx(rng.choice([b"", b"", b"w", b"y"])), opt,
+                                                          1 if rng.random() < 0.3 else 0))
+                bump(dist, "digit-facing-search")
     # ---- trees
     ntree = 700 if tier == "quick" else 25000
     for k in range(ntree):
@@ -304,7 +343,10 @@ def lookup_failures(case, impl):
     for a, g in zip(addrs, got):
         if a in want and g != want[a]:
             named = {pc.show_id(ids): al for ids, _, _, al in pc.addressed(t, a[1:])}
-            out.append((a, g, want[a], bool(named.get(g)) and bool(named.get(want[a]))))
+            # alias: the wanted port lies behind a level where two digit-facing siblings both spell the
+            # beginning of the address, and the answer is one of the ports the address names, or NULL
+            # (the lookup went down the other sibling and found nothing there)
+            out.append((a, g, want[a], bool(named.get(want[a])) and (g == "-" or bool(named.get(g)))))
     return out
 
 # ------------------------------------------------------------------------------------
@@ -453,8 +495,11 @@ LEVEL_TEXT = ("collapsePath: for every absolute path (any number and length of c
               "(C18_collapse). path_search: for every addressed table the three options return exactly the children whose names "
               "start with the needle, paired with their metadata bytes - in table order / as a sorted permutation / as the sorted "
               "permutation of the names not below a 'name/' entry, duplicates kept (C18_search_*), and the reply is the C01 "
-              "encoding of those pairs (C18_reply_wellformed). Lookup: every address the walk reports is found by apropos, for names "
-              "of the documented shape whose siblings do not clash - a decidable condition evaluated on every generated tree "
-              "(C18_lookup; C18_lookup_partial with the semantic condition).")
+              "encoding of those pairs (C18_reply_wellformed); the addressed table is the children of the port the location names by "
+              "structural descent with C05's spelling relation, for leaves and sub-trees at any depth (C18_addressed_port, "
+              "C18_search_addressed). Lookup: the clause as written is false (C18_lookup_refuted: siblings a#4b / a01b, known "
+              "finding lookup-leading-zero-alias); every address the walk reports is found by apropos for names of the documented "
+              "shape whose concrete sibling names are prefix-free AND where no '#N' meets a literal digit of a sibling - four "
+              "decidable conditions evaluated on every generated tree (C18_lookup_partial).")
 LEVEL_NOTE = ("Trusted: Coq kernel, extraction, OCaml driver, harness, generator. The C++ code is modelled by hand "
               "(coq/Ports/PathModel.v, NameModel.v) and related to the model only by the correspondence run.")
